@@ -6,6 +6,7 @@ D="$(readlink -f "$1")"; M="$(readlink -f "$2")"
 cd /repo
 git apply --check "$D"
 git apply "$D"
+git add -N . >/dev/null 2>&1 || true
 FILES=$(git diff --name-only)
 go build ./... 
 PKGS=$(echo "$FILES" | grep '\.go$' | xargs -n1 dirname | sort -u | sed 's#^#./#')
